@@ -56,8 +56,8 @@ def drive(tier):
     R = Recorder()
     r = vlib.rng("c01")
     CL = classes()
-    ntx = 250 if tier == "quick" else 4000
-    lens = gen.SLEN_Q if tier == "quick" else gen.SLEN_T
+    ntx = 250 if tier == "quick" else 3000
+    lens = gen.SLEN_Q          # 64 kB scripts only in the systematic part below (memory)
     descs = []
     # systematic part: every CompactSize boundary for script length, item length, item count, vin/vout count
     for n in (65535, 65536):
@@ -78,10 +78,11 @@ def drive(tier):
             d = gen.gen_tx(r, nin=1, nout=0, witness="none")
             d["wit"] = [[b"\x01"] * n]
             descs.append(d)
-            d = gen.gen_tx(r, nin=max(n, 1), nout=1, witness="none", lens=[0, 1])
-            descs.append(d)
-            d = gen.gen_tx(r, nin=1, nout=n, witness="none", lens=[0, 1])
-            descs.append(d)
+            if n <= 256:          # (65,536 inputs/outputs would need GBs of trace; the count prefix is the same CompactSize code)
+                d = gen.gen_tx(r, nin=max(n, 1), nout=1, witness="none", lens=[0, 1])
+                descs.append(d)
+                d = gen.gen_tx(r, nin=1, nout=n, witness="none", lens=[0, 1])
+                descs.append(d)
     for v in gen.VER:
         for u in gen.U32:
             d = gen.gen_tx(r, nin=1, nout=1)
